@@ -359,6 +359,19 @@ impl Router {
                     let stream = &mut context.streams[stream_id];
                     stream.context.backend_id = Some(backend.backend_id.to_owned());
                     stream.context.backend_address = Some(backend.address);
+                    if frontend_should_stick {
+                        // Same bookkeeping as `backend_from_request` on the
+                        // new-connection path: the response names the
+                        // backend that actually serves this request.
+                        stream.context.sticky_name =
+                            context.listener.borrow().get_sticky_name().to_string();
+                        stream.context.sticky_session = Some(
+                            backend
+                                .sticky_id
+                                .clone()
+                                .unwrap_or_else(|| backend.backend_id.to_owned()),
+                        );
+                    }
                     stream.metrics.backend_id = Some(backend.backend_id.to_owned());
                     stream.metrics.backend_start();
                     stream.metrics.backend_connected();
